@@ -78,7 +78,7 @@ CHECKS = {
     "C17": (
         "differential PBT: GLR/LR with consume_input=False vs union of reference derivations over all sentence prefixes (Earley prefix ends)",
         "Exploration: every token string up to 4-5 tokens (every sentence followed by every continuation, incl. junk) is parsed with consume_input=False; the set of trees expanded from the GLR forest must equal the union over all sentence prefixes of the reference derivations (each once) and SyntaxError is allowed only when no prefix is a sentence; the root of every tree must end where its own prefix ends (not where the longest one does); the LR result must be a derivation of a prefix that is a sentence; sub-check random-L1-overlapping repeats the GLR comparison (lexical disambiguation off) on overlapping terminals over every string up to 5 characters.",
-        "Trusted: pv/ref_chart.py. Known findings: D10 (lexical_disambiguation=True drops STOP; pinned by the suite) tolerated only for prefixes followed by a token; D1/D2 by their signatures.",
+        "Trusted: pv/ref_chart.py. Known findings: D10 (lexical_disambiguation=True drops STOP; pinned by the suite) tolerated only for prefixes followed by a token; D1/D2 by their signatures, D2 additionally pinned on a deterministic corpus (1 564 grammars; the recorded (trees, distinct trees) of 78 prefix forests is required exactly, every other input of the corpus is strict).",
         "DESIGN.md section 6/C17"),
     "C09": (
         "differential PBT across the evaluation routes (on the fly, build_tree+call_actions, GLR+call_actions lazy/non-lazy/first tree) and against a reference evaluator applied to the derivation the LR parser built; generated action tables, named matches and repetition sugar",
